@@ -149,7 +149,7 @@ def run_case(case):
                         pass
                     tree = e1.key_tree(obj)
                     before = e1.exact_state_on(obj, tree)
-                    tcase = {"start": case, "setter": name, "target": tag, "warm": warm}
+                    tcase = dict(case, setter=name, target=tag, warm=warm)  # replayable: run_case reads base/curved/prefix only
                     rep.transitions += 1
                     rep.traces += 1
                     if case["prefix"] or tag != "x2":
